@@ -478,7 +478,8 @@ fn kindmap(m: &Model, ctx: &mut Ctx) {
                     };
                     if want.is_empty() {
                         ctx.violate("C02.kindmap", &format!("{}:{}:unlisted", fname, v), &f.file, span_line(&mt.arms[i]), &format!("{}: ASN1Type::{} is not in the reference table ({} -> `{}`)", fname, v, tbl, got));
-                    } else if got != want {
+                    } else if got != want && got != "!" {
+                        // (a kind the generator refuses is a warning for the definition — C10's business — not a component of the wrong shape)
                         ctx.violate("C02.kindmap", &format!("{}:{}", fname, v), &f.file, span_line(&mt.arms[i]),
                             &format!("{}: a component of ASN.1 kind {} is given the Rust type `{}`; the rasn type for that kind is `{}`", fname, v, got, want));
                     }
